@@ -135,6 +135,9 @@ def parse_tlc_output(text, res):
             mm = re.search(r'Invariant (\w+) is violated', line)
             if mm:
                 res.violated = mm.group(1)
+            mm = re.search(r'The invariant of (\w+) is equal to FALSE', line)      # (an invariant that is a constant formula)
+            if mm:
+                res.violated = mm.group(1)
             mm = re.search(r'Action property (\w+) is violated', line)
             if mm:
                 res.violated = mm.group(1)
